@@ -131,13 +131,18 @@ func ttlGrid(r receiver, ttls []int) {
 		return c
 	}
 	maxh := eff + 2
-	if r.kind != "words" && maxh > 255 {
-		maxh = 255 // the hop byte cannot say more
+	if r.kind != "words" && maxh > 256 {
+		maxh = 256 // hop byte 255 is the last value that exists
 	}
 	for h := 1; h <= maxh; h++ {
 		want := h <= eff
 		if r.kind == "pair1" {
 			want = h-1 <= eff // PAIR1 counts forwarders
+		}
+		if r.kind != "words" && h-1 == 255 {
+			// a hop byte of 255 cannot be counted up any more: it has to be dropped whatever the TTL,
+			// or a forwarding loop would wrap round to 0 and never die out
+			want = false
 		}
 		probe := fmt.Sprintf("probe-h%d", h)
 		p.Deliver(crossed(r.kind, h, probe))
